@@ -17,7 +17,7 @@ import copy
 from . import core, schedules, workloads
 from .runner import Check
 
-KINDS = ["Error", "MyErr", "IndexError", "RuntimeError", "PropertyError", "IoError", "StackOverflow", "OperandError", "Shadow"]
+KINDS = ["Error", "MyErr", "IndexError", "RuntimeError", "PropertyError", "IoError", "StackOverflow", "OperandError", "Shadow", "Quiet"]
 # the class an injected error of each kind has (unbounded recursion is reported as a RuntimeError)
 CLASS_OF = {kind: kind for kind in KINDS}
 CLASS_OF["StackOverflow"] = "RuntimeError"
@@ -26,6 +26,8 @@ CLASS_OF["OperandError"] = "RuntimeError"
 # an instance of a second, unrelated class that is also called MyErr (declared inside a function): it prints like
 # MyErr, it is an Error, and a clause filtering on the module's MyErr does not take it
 CLASS_OF["Shadow"] = "MyErr"
+# an Error subclass whose init never calls the inherited one: its message is nil, it is still an Error
+CLASS_OF["Quiet"] = "Quiet"
 # LateErr is declared at the very end of the file: while the functions run, evaluating it as a catch filter raises
 # ('Undefined variable'), and that new error cannot be handled by the clause whose filter it is
 FILTERS = ["Error", "Error", "Error", "MyErr", "IndexError", "RuntimeError", "PropertyError", "IoError", "LateErr"]
@@ -205,7 +207,9 @@ def render(funs, target, kind):
         "StackOverflow": "overflow(0);",
         "OperandError": "1 + nil;",
         "Shadow": "raise mkshadow()('injected');",
+        "Quiet": "raise Quiet();",
     }[kind]
+    lines.append("class Quiet : Error { init() { self.q = 1; } }")
     lines.append("fn mkshadow() { class MyErr : Error {} MyErr }")
     lines.append("fn overflow(n) { overflow(n + 1) }")
     # every fault point performs one read of the simulated file system; in the IoError kind that read is
